@@ -28,4 +28,5 @@ InvGen == \A i \in DOMAIN h : C49_Gen(h[i])
 InvRun == \A i \in DOMAIN h : C49_Run(h[i])
 InvRefused == \A i \in DOMAIN h : RunRefused(h[i])
 InvFrame == \A i \in DOMAIN h : Frame(h[i])
+InvInspect == \A i \in DOMAIN h : Inspect(h[i])
 =============================================================================
